@@ -41,7 +41,9 @@ class CombinationMatcher(mcore.Matcher):
         return all(m.supports_block_quality() for m in self._submatchers)
 
     def max_quality(self):
-        return max(m.max_quality() for m in self._submatchers
+        # The score is the sum of the sub-matcher scores, so the best
+        # possible score is the sum of their best scores
+        return sum(m.max_quality() for m in self._submatchers
                    if m.is_active()) * self._boost
 
     def supports(self, astype):
@@ -244,7 +246,11 @@ class ArrayUnionMatcher(CombinationMatcher):
         return self._docnum < self._doccount
 
     def max_quality(self):
-        return max(m.max_quality() for m in self._submatchers)
+        # The buffered part holds sums of scores already; what is still to
+        # come can score at most the sum of the sub-matchers' best scores
+        return max(max(self._a),
+                   sum(m.max_quality() for m in self._submatchers
+                       if m.is_active()) * self._boost)
 
     def block_quality(self):
         return max(self._a)
